@@ -1094,3 +1094,32 @@ Section Oracle.
   Qed.
 
 End Oracle.
+
+(* =============================================================================================
+   LZMAWriter, top level *)
+
+(* LZMAWriter under EVERY call history, parser strategy and option vector in range: no panic (in
+   particular every buffer index is in range), the fuel of the model loops suffices, every write
+   returns the whole slice or is rejected as a whole by the declared-size check, and when finish
+   succeeds the symbols coded cover exactly the bytes accepted. *)
+Theorem lzma1_run_exact : forall (PS : Type) (parse : PS -> Z -> Z -> strat PS) (ps0 : PS)
+    normal bt4 dict nice preset expected ops,
+  opts_ok dict nice ->
+  (match preset with Some plen => 0 <= plen | None => True end) ->
+  ops_ok ops ->
+  (match preset with Some plen => Z.min plen dict | None => 0 end) + ops_total ops <= U32_MAX ->
+  okor (do s <- l1_new PS normal bt4 dict nice preset expected ps0; l1_run PS parse s ops [])
+       (fun r =>
+          let '(s1, res) := r in
+          let '(rs, c, fin) := l1_results expected 0 ops in
+          res = rs /\ sum_fill (l1_tr _ s1) = c /\
+          (fin = true -> sum_sym (l1_tr _ s1) = c /\ sum_abs (l1_tr _ s1) = 0)).
+Proof.
+  intros PS parse ps0 normal bt4 dict nice preset expected ops Ho Hpl Hok Hcap.
+  pose (chunkc := fun (ps : PS) (_ : Z) => (0, ps)).
+  eapply okor_bind; [apply (l1_new_spec PS parse chunkc normal bt4 dict nice preset expected ps0 Ho Hpl)|].
+  intros s (p & W & L & F0 & Ex & C0 & _ & _).
+  eapply okor_weaken.
+  { apply (l1_run_spec PS parse chunkc p _ expected W ops s [] L Ex Hok). rewrite F0. lia. }
+  intros [s1 res]. rewrite C0. destruct (l1_results expected 0 ops) as [[rs c] fin]. cbn [rev app]. auto.
+Qed.
